@@ -222,7 +222,14 @@ def r1(repo, res):
             for t, pol in c.guards(c.node_of(d)):
                 if not isinstance(t, ast.expr):
                     continue
-                for sub in ast.walk(t):
+                # the test may go through a local (unsupported = [m for m in ... if cov[m] <= 0]; if unsupported: ...)
+                exprs = [t]
+                for nm in [x for x in ast.walk(t) if isinstance(x, ast.Name)]:
+                    IN, defs_ = reaching(c, nm.id)
+                    ds = [defs_[k_] for k_ in IN[c.node_of(d)]]
+                    if len(ds) == 1 and isinstance(ds[0], ast.Assign):
+                        exprs.append(ds[0].value)
+                for sub in [y for e_ in exprs for y in ast.walk(e_)]:
                     if isinstance(sub, ast.Subscript) and isinstance(sub.value, ast.Name) and isinstance(sub.ctx, ast.Load):
                         st = ts.state(sub.value, d)
                         if st is not None:
